@@ -404,6 +404,16 @@ def run(ctx):
             common.fail(res, mk_case("import", orig_lines, orig_feats, []), "create_db_raised",
                         "create_db raised on a plain GFF3 feature set: " + rep, error=rep, observed=rep)
             continue
+        # the hypothesis of the region / limit theorems (BinInv): every stored row carries bins(start, end) of its own
+        # coordinates - the bin pre-filter is only transparent then
+        import gffutils.bins as _B
+        for row_ in dbside.rows_of(db):
+            if row_["start"] is not None and row_["end"] is not None and row_["bin"] != _B.bins(row_["start"], row_["end"], one=True):
+                common.fail(res, mk_case("import", orig_lines, orig_feats, []), "stored_bin_not_bins_of_coordinates",
+                            "a stored feature does not carry bins(start, end) of its coordinates (the bin pre-filter of "
+                            "region / limit queries would miss it)", id=row_["id"], start=row_["start"], end=row_["end"],
+                            stored_bin=row_["bin"], expected=_B.bins(row_["start"], row_["end"], one=True))
+                break
         # in some sets a few features are moved afterwards (fetch, change coordinates, update with replace):
         # the stored bin has to follow the new coordinates
         if si % 3 == 0:
